@@ -353,8 +353,16 @@ def run(ctx: Ctx, rep: Report, tier: str) -> None:
     from .c01 import log_keywords_pass
 
     log_keywords_pass(ctx, rep, rid="R11.9")
+    # R11.10 premise: no valid entry is refused for its length (C06 R06.9): a long group-free entry (two wildcards, two
+    # port ranges, flags, log) that the line normaliser refuses is dropped from the ACL with a warning - the report is
+    # silently incomplete, and `shading()` raises where an entry renders longer than it was typed
+    from .c06 import length_gates
+
+    sub69 = Report("C11")
+    length_gates(ctx, sub69)
+    rep.absorb(sub69, "R11.10")
 
 
 # what the later rounds (seeding rounds 2-5, refactor twins, defect hunt) added to what the check decides
-LATER_ROUNDS = "the skip options are independent and monotone on every path, ungroup always flattens, the report follows item order, log keywords pass the option word test"
+LATER_ROUNDS = "the skip options are independent and monotone on every path, ungroup always flattens, the report follows item order, log keywords pass the option word test, no entry is refused for its length"
 EXPLANATION = EXPLANATION.replace(" Does not decide", " Later rounds added: " + LATER_ROUNDS + ". Does not decide", 1) if " Does not decide" in EXPLANATION else EXPLANATION + " Later rounds added: " + LATER_ROUNDS + "."
